@@ -239,9 +239,11 @@ func (txn *Txn[T]) PrintTree() {
 }
 
 func (txn *Txn[T]) cloneNode(n *header[T]) *header[T] {
-	if n.txnID() == txn.txnID {
+	if !n.isLeaf() && n.txnID() == txn.txnID {
 		// The node was already cloned during this transaction and can
-		// be mutated in-place.
+		// be mutated in-place. Leaves carry no transaction ID (txnID()
+		// is always 0) and must always be cloned, also in the very first
+		// transaction of a tree for which txn.txnID is 0.
 		return n
 	}
 	if n.watch != nil {
